@@ -8,6 +8,10 @@ which a worker is declared inconclusive (exit 2)."""
 import glob, json, os
 
 ROOT = os.path.dirname(os.path.abspath(__file__))
+WIP = set()
+_w = os.path.join(ROOT, "wip.json")
+if os.path.exists(_w):
+    WIP = set(json.load(open(_w)))
 PROPS = {}
 for f in sorted(glob.glob(os.path.join(ROOT, "props", "c[0-9][0-9]", "plan.json"))):
     d = json.load(open(f))
